@@ -14,11 +14,15 @@ from bvm import harness
 PROP = "C16"
 RULE = ("histories over 2..5 identities of {create Session-Id AVP, create Acct-Multi-Session-Id AVP, create typed message "
         "from identity, bulk origin update to same/other identity, advance clock by 0.3/1/5 s, Session-Id from bytes}; "
-        "exhaustive to length L (5 quick, 6 thorough) over 2 identities, random to length 400/2000; oracle: set "
+        "exhaustive to length L (4 quick, 5 thorough) over a 14-operation alphabet with 2 identities and up to three live messages, random to length 400/2000; oracle: set "
         "membership over every id issued in the history + RFC 6733 8.8 grammar; distinct = distinct op sequences")
 
 IDS = ["hss.epc.example.org", "mme01.epc.example.org", "a", "x.y", "pgw.node-7.example.com"]
-OPS = ["sid0", "sid1", "msg0", "upd0", "upd1", "t0.3", "t1", "acct0"]
+OPS = ["sid0", "sid1", "msg0", "upd0", "upd1", "t0.3", "t1", "acct0", "new0", "new1", "nxt0", "nxt1", "raw0", "t5"]
+# msgN: typed message created from identity N (becomes the current message)   newN: generic message created from identity N
+# (kept, up to three are alive)   updN: bulk origin update of the current message to identity N   nxtN: the same on the
+# oldest kept message (so that several messages created in an earlier second are re-originated later)
+# rawN: a message whose Session-Id was supplied as bytes (foreign high/low fields) is re-originated to identity N
 
 
 class Clock:
@@ -51,6 +55,7 @@ class History:
         SessionHandler.reset()          # fresh "process"
         self.issued = {}
         self.msg = None
+        self.kept = []
         self.trace = []
 
     def record(self, sid_bytes, identity, how):
@@ -93,6 +98,27 @@ class History:
                     user_name="001010000000001", visited_plmn_id=b"\x00\xf1\x10")
             self.record(m.session_id_avp.data, ident, how)
             self.msg = m
+        elif op.startswith("new"):
+            m = DiameterMessage(DiameterHeader(command_code=316, application_id=16777251))
+            m.append(SessionIdAVP(ident))
+            self.record(m.session_id_avp.data, ident, how)
+            m.append(OriginHostAVP(ident))
+            m.append(OriginRealmAVP("example.org"))
+            self.kept.append(m)
+            del self.kept[:-3]
+            self.msg = m
+        elif op.startswith("nxt") or op.startswith("raw"):
+            if op.startswith("raw"):
+                m = DiameterMessage(DiameterHeader(command_code=316, application_id=16777251))
+                m.append(SessionIdAVP(b"peer.remote.example;1559529822;7"))
+                m.append(OriginHostAVP("peer.remote.example"))
+            elif self.kept:
+                m = self.kept.pop(0)
+            else:
+                return
+            m.update_avps({"origin_host": ident})
+            self.record(m.session_id_avp.data, ident, how)
+            self.acc.counters["bulk_updates"] += 1
         elif op.startswith("upd"):
             if self.msg is None:
                 m = DiameterMessage(DiameterHeader(command_code=316, application_id=16777251))
@@ -142,7 +168,7 @@ def run_batch(b):
         acc.extra["distinct_sequences"] = acc.evaluations
         acc.sample({"exhaustive_length": L, "first_ops": b["first"], "example": list(seq)})
     else:
-        ops = OPS + ["sid2", "sid3", "upd2", "upd3", "upd4", "msg1", "msg2", "acct1", "t5", "t0.3"]
+        ops = OPS + ["sid2", "sid3", "upd2", "upd3", "upd4", "msg1", "msg2", "acct1", "t5", "t0.3", "new2", "nxt2", "nxt3", "raw1", "raw2"]
         for _ in range(b["n"]):
             h = History(acc, clock)
             L = rng.randrange(2, b["maxlen"])
@@ -158,7 +184,7 @@ def run_batch(b):
 def main(tier, seed):
     t0 = time.time()
     q = tier == "quick"
-    L = 5 if q else 6
+    L = 4 if q else 5
     if q:
         batches = [{"kind": "exhaustive", "L": L, "first": [op], "seed": seed} for op in OPS]
     else:
